@@ -3,6 +3,7 @@ pub mod c09;
 pub mod c11;
 pub mod c12;
 pub mod checks;
+pub mod conformance;
 pub mod engine;
 pub mod gen;
 pub mod model;
